@@ -100,6 +100,9 @@ class Model:
         # the first box's corner 1, its edge 0-3 the first box's 1-2, its left side the first box's right side)
         self.proj = [[] for _ in range(self.n)]
         self.proj[1] = [("corner", 0, "terrain"), ("edge", 0, 3, "terrain"), ("side", "left", "terrain")]
+        # ... and a projected side of their own on every box (several entries in the faces section, one per block)
+        for i in range(self.n):
+            self.proj[i] = self.proj[i] + [("side", "bottom", "terrain" if i % 2 else "floor")]
         self.deleted = set()
         self.added = [i for i in range(self.n) if i not in variants()[variant].get("late", [])]
         self.late = list(variants()[variant].get("late", []))
